@@ -174,6 +174,17 @@ def check_grammar_case(ctx, factors, uspell, got, text):
     except KeyError:
         gsi = None
     okb = all(gsys[k] == bases[KINDS[k]] for k in range(3) if gdim[k] != 0 and KINDS[k] in bases)
+    if len(factors) <= 2 and tuple(gdim) == dim and gsi == si and okb:
+        # the SI scale as the package itself realises it: 1 <text> expressed in m / s / molecule
+        _, _, _, UnitValue, UnitsSystem, _ = impl()
+        try:
+            one = UnitValue(1.0, text).convert(UnitsSystem("m", "s", "molecule")).value
+        except Exception as ex:  # noqa
+            one = repr(ex)
+        if not close(one, si, rel=1e-12):
+            ctx.violation("grammar-meaning:si-conversion", "1 %s is %r in SI base units, its symbols define %s" % (text, one, common.fstr(si)),
+                          case, impl={"parsed": got, "one_in_SI": one}, expected={"dim": dim, "si": rstr(si)})
+            return
     if tuple(gdim) != dim or gsi != si or not okb:
         key = "grammar-meaning:%s" % ("dim" if tuple(gdim) != dim else "si")
         ctx.violation(key, "%r read as %s %s, its symbols define dimension %s and SI scale %s" % (text, gsys, gdim, dim, common.fstr(si)),
@@ -328,13 +339,12 @@ def run(ctx):
     rng = ctx.rng
     ctx.notes.append("quantity round trip (show_parse_value) is stated under the contract float(str(x)) = x of the trusted "
                      "primitives; the harness checks that contract bitwise on every generated double")
-    ctx.notes.append("grammar_semantics_partial: reading, dimension, a/b <-> a.b-1 and permutation-invariance of the dimension are "
-                     "proved; the SI-scale product formula and 'consistent => accepted' are NOT proved in Lean — they are checked "
-                     "exactly (rational arithmetic) by the oracle on every 1-factor string, every symbol pair x both separators "
-                     "and random 3-factor strings")
-    ctx.notes.append("rejection theorems for separators / exponent placement / foreign characters / two units are stated on the "
-                     "preprocessed text (after the u->µ chain, which only rewrites the letter u, and strip); embedded-blank and "
-                     "blank-inside-quantity-units are stated on the raw text")
+    ctx.notes.append("grammar_semantics is proved in full (acceptance iff no two factors name different base units of one kind, "
+                     "dimension, SI-scale product via the C06 SI spec, whole-result invariance under permutation and a/b <-> a.b-1)")
+    ctx.notes.append("rejection theorems are stated on the raw text (after Python's strip()) for embedded blanks, doubled / "
+                     "dangling separators, exponent-first / fractional exponents, text after an exponent, foreign characters "
+                     "('+'), blanks inside a quantity's units; unknown-symbol and two-units are stated on the factor blocks "
+                     "of the text after the u->µ chain (which is what defines the symbols)")
 
     # ============================================================ 1. the grammar: denotation of valid text
     cases = []   # (factors, uspell)
@@ -659,6 +669,10 @@ def replay(ctx, rec):
                 ok = "error" in got
             else:
                 ok = "ok" in got and tuple(got["ok"][1]) == spec[1] and si_factor(got["ok"][0], got["ok"][1]) == spec[2]
+                if ok and len(fs) <= 2:
+                    one = UnitValue(1.0, case["text"]).convert(UnitsSystem("m", "s", "molecule")).value
+                    out["one_in_SI"] = one
+                    ok = close(one, spec[2], rel=1e-12)
     elif kind == "variant":
         g1, g2 = run_parse_units(case["a"]), run_parse_units(case["b"])
         out["impl"] = {"a": g1, "b": g2}
